@@ -231,6 +231,7 @@ S('rv_ops_k3_prefilled', 'reusable/rv.cpp', {'assert': 'C12'}, defs=['VF_K=2', '
 
 # ----------------------------------------------------------------------------------------------- C19: counters / thread locals (sequential thread generations)
 S('cnt_generations', 'counter/cnt.cpp', {'assert': 'C19'}, extra=['babylon/concurrent/counter.cpp'], models=['sc'], bound=12)
+S('cnt_churn_inside_destructor', 'counter/churn_seq.cpp', {'assert': 'C19'}, extra=['babylon/concurrent/counter.cpp'], models=['sc'], bound=12)
 
 # ----------------------------------------------------------------------------------------------- C07: executors
 EXX = ['babylon/executor.cpp', 'babylon/basic_executor.cpp']
@@ -261,7 +262,11 @@ ser('hostile_len6_all', ['VF_INLEN=6', 'VF_SHAPE=3'], opts={'oob': '1'}, tiers=T
 AFX = ['babylon/anyflow/builder.cpp', 'babylon/anyflow/graph.cpp', 'babylon/anyflow/vertex.cpp', 'babylon/anyflow/data.cpp', 'babylon/anyflow/dependency.cpp',
        'babylon/anyflow/closure.cpp', 'babylon/anyflow/executor.cpp', 'babylon/any.cpp', 'babylon/basic_executor.cpp', 'babylon/executor.cpp',
        'babylon/reusable/memory_resource.cpp', 'babylon/reusable/page_allocator.cpp', 'babylon/concurrent/counter.cpp', 'babylon/new.cpp']
-S('af_chain_inplace', 'anyflow/af.cpp', {'assert': 'C05'}, extra=AFX, xsrc=['anyflow/libmodel.cpp'], cflags=['-D_GLIBCXX_ASSERTIONS'], models=['sc'], bound=8, tiers=('thorough',))
+def af(name, src, defs=(), **kw):
+    kw.setdefault('models', ['sc']); kw.setdefault('bound', 8)
+    o = dict(ctors='1'); o.update(kw.pop('opts', {}))
+    S(name, 'anyflow/' + src, {'assert': 'C05'}, extra=AFX, xsrc=['anyflow/libmodel.cpp'], cflags=['-D_GLIBCXX_ASSERTIONS'], defs=list(defs), opts=o, **kw)
+af('af_chain_inplace', 'af.cpp')
 
 # ----------------------------------------------------------------------------------------------- manifest texts
 LEVEL_TEXT = {
